@@ -48,6 +48,12 @@ def expand_minimal_spaces(
         if node["expanded"]:
             return
 
+        # Attractor data computed while the node had no successors
+        # is no longer valid once the skip edges are added.
+        node["attractor_seeds"] = None
+        node["attractor_candidates"] = None
+        node["attractor_sets"] = None
+
         skip_edges = 0
         for m_trap in all_minimal_traps:
             if is_subspace(m_trap, sd.node_data(node_id)["space"]):
